@@ -102,6 +102,26 @@ def p_shift(t):
     return None
 
 
+def p_file_route(x):
+    """the same ranges whether the text is passed in or read from a UTF-8 file"""
+    path, t = x
+    import os
+    with open(path, 'w', encoding='utf-8', newline='') as f:
+        f.write(t)
+    try:
+        a = dc.DebianCopyright.from_file(path)
+        b = dc.DebianCopyright.from_text(t)
+        ra = [(type(p).__name__, sorted((k, tuple(v)) for k, v in p.line_numbers_by_field.items())) for p in a.paragraphs]
+        rb = [(type(p).__name__, sorted((k, tuple(v)) for k, v in p.line_numbers_by_field.items())) for p in b.paragraphs]
+    except Exception as e:  # noqa
+        return 'raises %s' % type(e).__name__
+    finally:
+        os.unlink(path)
+    if ra != rb:
+        return 'ranges read from a file %r differ from those of the text %r' % (ra, rb)
+    return None
+
+
 def run(ctx):
     rng = ctx.rng
     texts = [recovery_text(rng) for _ in range(ctx.n(6000, 80000))]
@@ -113,6 +133,12 @@ def run(ctx):
               'Files: *\nCopyright: x\nLicense:\n\n text\n more', 'Foo:\n\n\n\njunk text\n']
     fails = ctx.prop('prop:ranges', texts, p_ranges)
     fails += ctx.prop('prop:shift', texts[:ctx.n(6000, 80000)], p_shift)
+    import os
+    fpath = os.path.join(ctx.scratch, 'copyright.txt')
+    ftexts = [('\n' * rng.choice([0, 0, 1, 2]) + t) for t in texts[:ctx.n(500, 5000)]]
+    ff = ctx.prop('prop:file-route', [(fpath, t) for t in ftexts if t.strip()], p_file_route)
+    fails += [(f[0][1], f[1]) for f in ff]
+    ctx.notes.append('file route (open, UTF-8 decoding, newline translation) is exercised by execution only, not modelled')
     bad = ctx.compare('corr:copyright', [('copyright_from_text', [t]) for t in texts], _copy.impl)
     bad += ctx.compare('corr:copyright:shifted', [('copyright_from_text', ['\n' * rng.choice([1, 2, 5]) + t]) for t in texts[:ctx.n(3000, 40000)]], _copy.impl)
     fails.sort(key=lambda f: len(f[0]))
